@@ -506,6 +506,57 @@ def check_factory_optional_deref(ctx):
                               '%s is optional in its decoder and is handed to %s, which reads %s without testing %s for None: AttributeError -> General Failure for a well-formed Register'
                               % (U(ae), c.func.attr, sorted(set(U(x) for x in bad))[:3], cps[i_]))
     ctx.count('optional_structures_handed_to_converters', n_sites, 2)
+    # direct chains: <core object>.<...>.<optional field>.<attr> read in a converter without a test of the optional field
+    # (F32: key.key_block.cryptographic_algorithm.value - both optional in KeyBlock.read)
+    n_direct = 0
+    core_param = {'key', 'secret', 'cert', 'obj', 'certificate', 'split_key', 'opaque'}
+    for name, fn in sorted(ms.items()):
+        ps = params(fn)
+        if name.startswith('_build_core') or not ps:
+            continue
+        g = CFG(fn)
+        rd = ReachingDefs(g)
+        from ..cfg import expr_nodes
+        for n in g.nodes:
+            for ex in expr_nodes(n):
+                for x in ast.walk(ex):
+                    if not (isinstance(x, ast.Attribute) and isinstance(x.ctx, ast.Load) and isinstance(x.value, ast.Attribute)):
+                        continue
+                    b = x.value
+                    root = b
+                    while isinstance(root, ast.Attribute):
+                        root = root.value
+                    if not (isinstance(root, ast.Name) and root.id in ps):
+                        continue
+                    info = field_info(b)
+                    if not info or not info[1]:
+                        continue
+                    # the holder must be known: the base of b is itself a codec field (or the parameter)
+                    cands = by_field.get(b.attr, [])
+                    binfo = field_info(b.value)
+                    if binfo and binfo[0]:
+                        cands = [(r, d) for r, d in cands if r in binfo[0]]
+                        if not cands:
+                            continue
+                        if not any(k in (None, 'opt') for r, d in cands for k in (list(d['kinds'].values()) or [None])):
+                            continue
+                        if any(d['raw'] or d['rep'] for r, d in cands):
+                            continue
+                    else:
+                        continue
+                    n_direct += 1
+                    guarded = False
+                    tb = U(b)
+                    for tt, lab in dominating_edges(g, n):
+                        nt = is_none_test(tt.stmt)
+                        if nt and U(nt[1]) == tb and ((nt[0] == 'isnot') == (lab == 'T')):
+                            guarded = True
+                        if U(tt.stmt) == tb and lab == 'T':
+                            guarded = True
+                    ctx.check(guarded, 'C13.R11', 'ObjectFactory.%s|%s.%s' % (name, tb, x.attr), '%s:%s ObjectFactory.%s' % (FACTORY, x.lineno, name),
+                              'the optional field %s is tested before .%s is read' % (tb, x.attr),
+                              '%s is optional in the decoder of its structure and .%s is read from it without a None test: AttributeError -> General Failure for a well-formed Register' % (tb, x.attr))
+    ctx.analysed['optional_fields_dereferenced_in_converters'] = n_direct
 
 
 def check_table_lookup_results(ctx):
